@@ -117,8 +117,15 @@ def run(ctx: common.Ctx) -> None:
         env = common.base_env(VERIF_POOL_ROOT=wd)
         with Pool(env=env) as pool:
             import itertools
-            for t, r in pool.imap(itertools.chain(gen(ctx, n_hist, steps), gen_corpus(ctx, n_corpus),
-                                                  gen(ctx, n_expl, steps, explore=True)), timeout=600):
+            only = os.environ.get("VERIF_ONLY")   # triage aid: "explore" or "core"
+            streams = []
+            if only != "explore":
+                streams += [gen(ctx, n_hist, steps), gen_corpus(ctx, n_corpus)]
+            if only != "core":
+                streams += [gen(ctx, n_expl, steps, explore=True)]
+            if only:
+                ctx.floor_nontrivial, ctx.floor_evaluations = 2, 2
+            for t, r in pool.imap(itertools.chain(*streams), timeout=600):
                 if not r.get("ok"):
                     ctx.inconc("runner:" + ("timeout" if r.get("timeout") else "died" if r.get("died") else str(r.get("exc"))[:60]))
                     continue
